@@ -163,6 +163,16 @@ func (e5Engine) Gen(prop string, seed int64, tier string) *Plan {
 		}
 	}
 	p.Steps = append(p.Steps, Step{K: "check", A: r.IntN(1 << 24)})
+	// updates through the collection API with a document that carries only the changed field (own stream)
+	rcu := newRng(seed, 72)
+	var steps []Step
+	for _, st := range p.Steps {
+		steps = append(steps, st)
+		if st.K == "update" && chance(rcu, 25) {
+			steps = append(steps, Step{K: "colupdate", A: rcu.IntN(64), B: rcu.IntN(3), C: rcu.IntN(64)})
+		}
+	}
+	p.Steps = steps
 	return p
 }
 
@@ -510,6 +520,52 @@ func (r *c07Run) exec(i int, s Step) {
 			r.model[id] = nv
 		}
 		r.res.Stats["updates"]++
+	case "colupdate":
+		// Collection.Update with a document that holds the docID and the one changed field only
+		ids := r.liveIDs()
+		if len(ids) == 0 {
+			return
+		}
+		id := ids[mod(s.A, len(ids))]
+		f := *c07FieldByName([]string{"score", "active", "born"}[mod(s.B, 3)])
+		jv := f.json[mod(s.C, len(f.json))]
+		for k, n := range []*SimNode{r.ix, r.pl} {
+			err := func() (err error) {
+				defer func() {
+					if p := recover(); p != nil {
+						err = fmt.Errorf("PANIC: %v @ %s", p, panicSite())
+					}
+				}()
+				col, err := n.DB.GetCollectionByName(n.reqCtx(), "User")
+				if err != nil {
+					return err
+				}
+				docID, err := client.NewDocIDFromString(id)
+				if err != nil {
+					return err
+				}
+				doc, err := client.NewDocWithID(docID, col.Definition())
+				if err != nil {
+					return err
+				}
+				if err := doc.SetWithJSON([]byte(fmt.Sprintf(`{%q: %s}`, f.name, jv))); err != nil {
+					return err
+				}
+				return col.Update(n.reqCtx(), doc)
+			}()
+			if err != nil {
+				if k == 0 {
+					r.res.violate("C07", "write-failed-on-indexed-node", "colupdate/"+f.kind, i, "Collection.Update of %s with {%s: %s}: %v", id, f.name, jv, err)
+				} else {
+					r.res.HarnessErr = fmt.Sprintf("twin colupdate failed: %v", err)
+				}
+				return
+			}
+		}
+		nv := copyStrMap(r.model[id])
+		nv[f.name] = jv
+		r.model[id] = nv
+		r.res.Stats["partial_document_updates"]++
 	case "delete":
 		ids := r.liveIDs()
 		if len(ids) == 0 {
